@@ -5,7 +5,7 @@
    with the Gallina model, for which "never Panic, never out of fuel" is
    proved in Properties/C16.v. *)
 From Coq Require Import List NArith ZArith Bool.
-From Dials Require Import Base.Outcome Base.Runes Text.CaseConv Text.Quote Text.Split Text.CasePipeline.
+From Dials Require Import Base.Outcome Base.Runes Text.CaseConv Text.Quote Text.Split Text.CasePipeline Text.CaseTitle.
 From Dials Require Export Text.ParseInt Text.ParseString.
 From Dials Require Import Check.C15Check.
 Import ListNotations.
@@ -59,17 +59,10 @@ Definition check (c : c16case) : N :=
         end
   | Enc e ws impl =>
       if is_panic impl then 3
-      else if (e <=? 1) && negb (forallb title_safe ws) then 0     (* x/text titling beyond the model: class only *)
-      else if out_eqb str_eqb impl (Ok (encode_by e ws)) then 0 else 1
+      else if out_eqb str_eqb impl (Ok (encode_by_go e ws)) then 0 else 1
   | Pipe d1 e d2 s impl =>
       if is_panic impl then 3
-      else
-        let comparable := match decode_by d1 s with
-                          | Ok ws => negb (e <=? 1) || forallb title_safe ws
-                          | _ => true
-                          end in
-        if negb comparable then 0
-        else if out_eqb strs_eqb impl (pipeline d1 e d2 s) then 0 else 1
+      else if out_eqb strs_eqb impl (ws <- decode_by d1 s ;; decode_by d2 (encode_by_go e ws)) then 0 else 1
   | Fuzz k => if k =? 0 then 0 else 3
   end.
 
